@@ -21,7 +21,8 @@ def actOf (j : Json) : Option Act :=
     | "submit" => some (.submit (natAt a 1))
     | "begin" => some (.begin (natAt a 1))
     | "finish" => some (.finish (natAt a 1) (finOf a))
-    | "timerFire" => some (.timerFire (natAt a 1) (boolAt a 2))
+    | "timerFire" => some (.timerFire (natAt a 1))
+    | "resubmit" => some (.resubmit (natAt a 1) (boolAt a 2))
     | "tick" => some (.tick (natAt a 1))
     | "cancel" => some (.cancel (natAt a 1))
     | "wake" => some .wake
